@@ -74,7 +74,7 @@ def touched_roots(base_model: Model, model: Model, edits: List[dict]) -> List[tu
             touched_structs.add(e["name"])
         elif e["edit"] == "E8-override-chain":
             touched_structs.update([e["mid"], e["leaf"]])
-        elif e["edit"] in ("E1-matrix", "E1-same-name"):
+        elif e["edit"] in ("E1-matrix", "E1-same-name", "E1-diamond"):
             touched_structs.update(e["structures"])
         elif e["edit"] in ("E2-new-property", "E7-remove-optional"):
             touched_structs.add(e["structure"])
